@@ -108,9 +108,8 @@ def _phi_defs(fn, ex, op, at, depth=0):
     return out or [(norm(ex.operand(op, at)), at[0])]
 
 
-def flag_rules(ctx, facts, rep):
+def flag_rules(ctx, facts, rep, rule="C02-FLAGS"):
     """general purpose flags: bit 11 iff the name is not ASCII, bit 0 iff encrypted, nothing else, OR-ed together"""
-    rule = "C02-FLAGS"
     spec = ctx.spec("appnote.json")["flags"]
     ok = True
     for pat, idx in ((r"^write::write_local_file_header$", 2), (r"^write::write_central_directory_header$", 3)):
